@@ -1046,14 +1046,46 @@ fn plan_tokens(p: &Plan, gx: Option<&Gx>, out: &mut Vec<String>) -> Option<()> {
             g.table_tokens(p, input, out)?;
             plan_tokens(input, gx, out)?;
         }
-        Plan::ProcedureCall { input, args, .. } => {
+        Plan::ProcedureCall { input, name, args, yields } => {
             let g = gx?;
+            if args.is_empty() || yields.is_empty() {
+                return None;
+            }
             out.push("call".into());
             out.push(args.len().to_string());
             for a in args {
                 expr_tokens(a, &cx_of(input), out)?;
             }
-            g.table_tokens(p, input, out)?;
+            // the table does NOT come from ProcedureCallIter: the registry is asked directly with the
+            // argument values, and the result rows are joined to the input row under the YIELD aliases
+            let rows = g.rows_of(input)?;
+            out.push(rows.len().to_string());
+            let proc_name = name.join(".");
+            let params = Gx::params();
+            for r in rows {
+                g.row_tokens(&r, out)?;
+                let vals: Vec<Value> =
+                    args.iter().map(|a| nervusdb_query::evaluator::evaluate_expression_value(a, &r, g.snap, &params)).collect();
+                let items: Vec<Result<Row, Error>> = match nervusdb_query::executor::get_procedure_registry().get(&proc_name) {
+                    None => vec![Err(Error::Other(format!("Procedure {} not found", proc_name)))],
+                    Some(pr) => match pr.execute(g.snap as &dyn nervusdb_query::executor::ErasedSnapshot, vals) {
+                        Err(e) => vec![Err(e)],
+                        Ok(res) => res
+                            .into_iter()
+                            .map(|pr_row| {
+                                let mut joined = r.clone();
+                                for (field, alias) in yields {
+                                    if let Some(v) = pr_row.get(field) {
+                                        joined = joined.with(alias.as_ref().unwrap_or(field).clone(), v.clone());
+                                    }
+                                }
+                                Ok(joined)
+                            })
+                            .collect(),
+                    },
+                };
+                g.items_tokens(&items, out)?;
+            }
             plan_tokens(input, gx, out)?;
         }
         Plan::OptionalWhereFixup { outer, filtered, null_aliases } => {
@@ -1894,8 +1926,18 @@ const HEADS: &[Head] = &[
     Head { text: "MATCH (a:N) OPTIONAL MATCH (a)-[:R*1..2]->(b) WHERE b.i < 2", nodes: &["a", "b"], ints: &[], can_where: false },
     Head { text: "MATCH (a:N) OPTIONAL MATCH (a)<-[:R]-(b) WHERE toInteger(b.v) > 0", nodes: &["a", "b"], ints: &[], can_where: false },
     Head { text: "MATCH (a:N {k: 's'}) OPTIONAL MATCH (a)-[:R]-(b) WHERE b.k = 't'", nodes: &["a", "b"], ints: &[], can_where: false },
+    // an input that can fail below an expansion / a fixup / a call (the `Err` item must travel through them)
+    Head { text: "MATCH (a:N) WHERE toBoolean(a.v) WITH a MATCH (a)-[:R]->(b)", nodes: &["a", "b"], ints: &[], can_where: true },
+    Head { text: "MATCH (a:N) WHERE toBoolean(a.v) WITH a MATCH (a)<-[:R]-(b)", nodes: &["a", "b"], ints: &[], can_where: true },
+    Head { text: "MATCH (a:N) WHERE toBoolean(a.v) WITH a MATCH (a)-[:R]-(b)", nodes: &["a", "b"], ints: &[], can_where: true },
+    Head { text: "MATCH (a:N) WHERE toInteger(a.v) >= 0 WITH a MATCH (a)-[:R*1..2]->(b)", nodes: &["a", "b"], ints: &[], can_where: true },
+    Head { text: "MATCH (a:N) WHERE toBoolean(a.v) WITH a OPTIONAL MATCH (a)-[:R]->(b) WHERE b.i > 1", nodes: &["a", "b"], ints: &[], can_where: false },
+    Head { text: "MATCH (a:N) OPTIONAL MATCH (a)-[:R]->(b) WHERE toBoolean(b.v) AND b.i > 0", nodes: &["a", "b"], ints: &[], can_where: false },
+    Head { text: "MATCH (a:N) WHERE toBoolean(a.v) CALL test.my.proc(a.i) YIELD out", nodes: &["a"], ints: &["out"], can_where: false },
+    Head { text: "MATCH (a:N)-[r:R]->(b) WHERE toInteger(b.v) >= 0 WITH a, r MATCH (a)-[r]->(c)", nodes: &["c"], ints: &[], can_where: true },
     // cartesian product
     Head { text: "MATCH (a:N), (b:M)", nodes: &["a", "b"], ints: &[], can_where: true },
+    Head { text: "MATCH (a:N), (b:M) WHERE toBoolean(b.v)", nodes: &["a", "b"], ints: &[], can_where: false },
     // procedure calls
     Head { text: "UNWIND [1, 2, 3, 4] AS q CALL test.my.proc(q) YIELD out", nodes: &[], ints: &["q", "out"], can_where: false },
     Head { text: "UNWIND [1, 2, 'x', 3] AS q CALL test.my.proc(q) YIELD out", nodes: &[], ints: &["q", "out"], can_where: false },
@@ -1988,6 +2030,10 @@ fn write_sweep() -> Vec<(String, bool)> {
                 qs.push((format!("{} FOREACH (i IN [{}(x)] | CREATE (:T {{b: i}}))", src, f), false));
                 qs.push((format!("{} FOREACH (i IN [1, 2] | CREATE (:T {{b: {}(x), i: i}}))", src, f), false));
                 qs.push((format!("{} FOREACH (i IN x | CREATE (:T {{i: i}}))", src), false));
+                // the failing row is an INPUT row of the FOREACH
+                qs.push((format!("{} WITH {}(x) AS b FOREACH (i IN [b] | CREATE (:T {{b: i}}))", src, f), false));
+                qs.push((format!("{} WITH x WHERE {}(x) IS NOT NULL FOREACH (i IN [1] | CREATE (:T {{i: i}}))", src, f), false));
+                qs.push((format!("{} WITH x ORDER BY {}(x) FOREACH (i IN [1] | CREATE (:T {{i: i}}))", src, f), false));
             }
         }
     }
@@ -2087,6 +2133,23 @@ fn generate_c33_graph(rng: &mut Rng, n: usize, tier: &str, out: &mut dyn Write) 
     for id in &ids {
         writeln!(out, "#case graph-{}", id).unwrap();
         let (_dir, db) = build_graph(*id);
+        // OPTIONAL MATCH … WHERE and the blocking operators over expansions under EVERY collection
+        // limit that can matter: each of the check sites (outer / filtered / output, OrderBy.collect,
+        // Aggregate.*) is the first to fail for some limit
+        let sweep_heads: Vec<&Head> = HEADS.iter().filter(|h| h.text.contains("OPTIONAL MATCH") && h.text.contains("WHERE")).collect();
+        let picks: Vec<&&Head> = if tier == "thorough" { sweep_heads.iter().collect() } else { sweep_heads.iter().skip((*id % 2) as usize).step_by(2).collect() };
+        for h in picks {
+            for tail in ["RETURN a.i AS x, b.i AS y", "RETURN a.i AS x, b.i AS y ORDER BY x", "RETURN a.i AS x, count(b) AS c"] {
+                let cy = format!("{} {}", h.text, tail);
+                let Some(toks) = model_plan_db(&db, &cy) else { continue };
+                let (o, _) = run_query(&db, &cy, unlimited());
+                let Outcome::Rows(rows) = &o else { continue };
+                let top = rows.len().max(4) + 3;
+                for c in 1..=top {
+                    writeln!(out, "limg {} - {} - ; {} ; {}", id, c, toks, cy).unwrap();
+                }
+            }
+        }
         let mut made = 0;
         let mut tries = 0;
         let per = n / ids.len() + 1;
